@@ -229,3 +229,38 @@ func verifC09BlockOf(log []verifC09Entry, aT bool, ld, r, c, t int) (start, coun
 	}
 	return start, count
 }
+
+// VerifC09_DgemmScheduled: the REAL parallel Dgemm (real kernels, no frame
+// summary) on concrete integer-valued 65x65x65 operands (2x2 blocks of C, two
+// k blocks) executed under the goroutine scheduler for GOMAXPROCS in {1,2,4}:
+// on every explored schedule the result is bit-identical to the serial
+// product, no goroutine is left behind and no cell is accessed by two
+// goroutines without happens-before order.
+func VerifC09_DgemmScheduled() {
+	const n = 65
+	aT := verifChoose("aTrans", 0, 1) == 1
+	bT := verifChoose("bTrans", 0, 1) == 1
+	procs := 1 << uint(verifChoose("procsLog2", 0, 2))
+	a := make([]float64, n*n)
+	b := make([]float64, n*n)
+	for i := range a {
+		a[i] = float64(i%7 - 3)
+		b[i] = float64(i%5 - 2)
+	}
+	want := make([]float64, n*n)
+	dgemmSerial(aT, bT, n, n, n, a, n, b, n, want, n, 1)
+	verifStubFunc("runtime.GOMAXPROCS", func(int) int { return procs })
+	c := make([]float64, n*n)
+	verifSched(verifParam("c09gsched", 1))
+	verifSchedPreempt(verifParam("c09gpreempt", 0) == 1)
+	dgemmParallel(aT, bT, n, n, n, a, n, b, n, c, n, 1)
+	verifAssert(verifSchedDrain() == 0, "parallel Dgemm leaves no goroutine behind")
+	same := true
+	for i := range c {
+		if !verifSame(c[i], want[i]) {
+			same = false
+		}
+	}
+	verifAssert(same, "parallel Dgemm is bit-identical to the serial product on every schedule")
+	verifReach("end")
+}
